@@ -125,6 +125,9 @@ func (g *sgen) historyCall(tier string) map[string]interface{} {
 		if g.p(10) {
 			c["number"] = true // json.Number carrier: conversion failures end the call early
 		}
+		if g.p(4) {
+			c["schema"] = nil // no schema at all: the nil validator answers with the shared empty result
+		}
 		return c
 	case r < 70:
 		s := g.simpleSchema(2)
@@ -349,6 +352,9 @@ func runCall(call map[string]interface{}, reg strfmt.Registry, recycle bool) (re
 		sb, _ := json.Marshal(call["schema"])
 		db, _ := json.Marshal(call["data"])
 		sch := parseSchemaJSON(sb)
+		if call["schema"] == nil {
+			sch = nil
+		}
 		var data interface{}
 		if b, _ := call["number"].(bool); b {
 			data = parseNumberData(db)
